@@ -41,9 +41,21 @@ func assemble(w gbRec, cached bool) poly.Sequence {
 	return s
 }
 
-// c03One writes x eight times, reads it back and emits the event C03_Trace judges
+// c03One writes x eight times at once and reads it back LATER (c03Flush): the bytes handed out by Build are a value
+// of their own, whatever later Build / Parse calls do.  The event is what C03_Trace judges.
+var c03Pending []func()
+
+func c03Flush() {
+	for _, f := range c03Pending {
+		f()
+	}
+	c03Pending = nil
+}
+
 func c03One(x poly.Sequence, mode int, viaFile bool, emit func(interface{})) {
 	ev := map[string]interface{}{"mode": mode}
+	var text []byte
+	det := true
 	func() {
 		defer func() {
 			if r := recover(); r != nil {
@@ -51,38 +63,51 @@ func c03One(x poly.Sequence, mode int, viaFile bool, emit func(interface{})) {
 			}
 		}()
 		first := genbank.Build(x)
-		det := true
 		for j := 0; j < 7; j++ {
 			if !bytes.Equal(genbank.Build(x), first) {
 				det = false
 			}
 		}
-		text := first
+		text = first
 		if viaFile {
 			p := stalePath("genbank")
 			genbank.Write(x, p)
 			text, _ = os.ReadFile(p)
 		}
-		back := genbank.Parse(text)
-		px, pb := projectGb(x), projectGb(back)
-		locsok := len(x.Features) == len(back.Features)
-		for fi := range x.Features {
-			if locsok && !reflect.DeepEqual(x.Features[fi].SequenceLocation, back.Features[fi].SequenceLocation) {
-				locsok = false
-			}
-		}
-		if mode == 2 { // no cached location text: the text in the file is whatever the writer derives from the structure
-			for fi := range px.Feats {
-				px.Feats[fi].Loc = genbank.BuildLocationString(x.Features[fi].SequenceLocation)
-			}
-		}
-		ev["x"], ev["reparsed"], ev["deterministic"], ev["locsok"], ev["panic"] = px, pb, det, locsok, ""
-		ev["lines"] = strings.Split(strings.TrimSuffix(string(text), "\n"), "\n")
 	}()
-	if ev["panic"] != "" {
-		ev["x"], ev["reparsed"], ev["deterministic"], ev["locsok"], ev["lines"] = gbRec{}.canon(), gbRec{}.canon(), true, true, []string{}
+	c03Pending = append(c03Pending, func() {
+		if _, crashed := ev["panic"]; !crashed {
+			func() {
+				defer func() {
+					if r := recover(); r != nil {
+						ev["panic"] = fmt.Sprint(r)
+					}
+				}()
+				back := genbank.Parse(text)
+				px, pb := projectGb(x), projectGb(back)
+				locsok := len(x.Features) == len(back.Features)
+				for fi := range x.Features {
+					if locsok && !reflect.DeepEqual(x.Features[fi].SequenceLocation, back.Features[fi].SequenceLocation) {
+						locsok = false
+					}
+				}
+				if mode == 2 { // no cached location text: the text in the file is whatever the writer derives from the structure
+					for fi := range px.Feats {
+						px.Feats[fi].Loc = genbank.BuildLocationString(x.Features[fi].SequenceLocation)
+					}
+				}
+				ev["x"], ev["reparsed"], ev["deterministic"], ev["locsok"], ev["panic"] = px, pb, det, locsok, ""
+				ev["lines"] = strings.Split(strings.TrimSuffix(string(text), "\n"), "\n")
+			}()
+		}
+		if ev["panic"] != "" {
+			ev["x"], ev["reparsed"], ev["deterministic"], ev["locsok"], ev["lines"] = gbRec{}.canon(), gbRec{}.canon(), true, true, []string{}
+		}
+		emit(ev)
+	})
+	if len(c03Pending) >= 3 {
+		c03Flush()
 	}
-	emit(ev)
 }
 
 func c03Record(tier string, seed int64, emit func(interface{})) {
@@ -143,6 +168,7 @@ func c03Record(tier string, seed int64, emit func(interface{})) {
 		}
 		c03One(x, mode, rng.Intn(4) == 0, emit)
 	}
+	c03Flush()
 }
 
 func init() {
